@@ -207,6 +207,20 @@ CHECKS = {
             {"name": "c14-rec", "bin": "database", "build": "inpkg:pkg/database", "run": "^TestC14Rec$", "quick": 20000, "thorough": 500000},
         ],
     },
+    "C15": {
+        "level": "model_based_exploration",
+        "manifest": {
+            "technique": "model-based stateful property testing (rapid) of JIT call histories with a differential oracle against fresh OptNone compilation, plus concurrent histories under the race detector",
+            "level_text": "Each case holds one or two route names with up to three successive, independently generated definitions each (the harness's typed program generator, in the AST forms the optimizer rewrites), a hot-path threshold in {0,1,2,4,10} and a recompile window in {0,-1ns,1h}, and a history of up to 24 calls: CompileRoute, CompileRouteWithTypes (8 type maps, more than the 5-per-route limit), RecordExecution bursts around the threshold, RecordDeoptimization, CheckAdaptiveRecompilation, GetUnit, InvalidateCache, ClearCache, SetHotPathThreshold, SetRecompileWindow, and redefinition (the caller invalidates the name or clears the cache and from then on passes the new definition). Every bytecode the JIT returns or holds (CompileRoute, CompileRouteWithTypes, GetUnit) is executed on the VM for 1-3 variable bindings and must give the result of a fresh OptNone compilation of the name's current definition; a difference that equals an earlier definition's behaviour is reported as stale code. The concurrent unit runs 2-6 goroutines of such calls (no redefinition) on one JITCompiler under -race with the same oracle per call and at quiescence; any race-detector report is a violation.",
+            "level_note": "The optimised tiers run the AST optimizer, whose three recorded C03 findings are excluded by construction exactly as in the C03 check (total, well-typed operands; anchored conditions; no declarations in loop bodies), so a difference here is the JIT's or a new optimizer defect. Recompilation windows are driven with 0/-1ns (always elapsed) and 1h (never) instead of a virtual clock. Redefinition racing with compilation is not generated: the API gives no ordering between a compile that started before an invalidation and the invalidation itself.",
+        },
+        "rule": ("a case is a JIT call history; non-trivial = a route was redefined and then compiled again, or some call changed a unit's tier (sequential), or >= 2 goroutines (concurrent); distinct = hash of the case"),
+        "assumptions": ["a caller that changes a route's definition calls InvalidateCache(name) or ClearCache() before passing the new definition"],
+        "units": [
+            {"name": "c15-hist", "bin": "c15", "build": "harness:c15", "run": "^TestC15Hist$", "quick": 6000, "thorough": 400000},
+            {"name": "c15-conc", "bin": "c15", "build": "harness:c15", "run": "^TestC15Conc$", "race": True, "quick": 1500, "thorough": 60000, "gomaxprocs": 4},
+        ],
+    },
     "C17": {
         "level": "exploration",
         "manifest": {
